@@ -36,6 +36,9 @@ class Res:
         self.diag = ""      # first compiler diagnostic message
         self.stderr = ""
 
+    def text(self):
+        return ANSI.sub("", self.out) + "\n" + self.stderr
+
     def brief(self):
         return {"verdict": self.verdict, "rc": self.rc, "stdout": self.out[-1500:], "msg": self.msg,
                 "diag": self.diag[:400], "stderr": self.stderr[-1200:]}
@@ -63,7 +66,8 @@ def classify(rc, out, err):
         r.verdict = "ok"
     elif "Did not compile successfully" in err or "Did not compile successfully" in out:
         r.verdict = "rejected"
-        m = re.search(r"^\s*=\s*(.+)$", err, re.M)
+        # the diagnostics themselves go to stdout, the summary line to stderr
+        m = re.search(r"^\s*=\s*(.+)$", ANSI.sub("", out) + "\n" + err, re.M)
         r.diag = m.group(1).strip() if m else err.strip()[:300]
     elif "FATAL RUNTIME ERROR" in err or "Interpreter crashed" in err:
         r.verdict = "rt-error"
